@@ -372,3 +372,23 @@ Example legacy_clone_refuted :
   map p_tests (observe (run_legacy (fun c => c + 1) (fun _ => 0) ops)) = [[10; 11; 12]; [10; 11; 12; 200]; [10; 11; 12; 200]]
   /\ map p_tests (observe (run (fun c => c + 1) (fun _ => 0) ops)) = [[10; 11; 12]; [10; 11; 12; 100]; [10; 11; 12; 200]].
 Proof. split; vm_compute; reflexivity. Qed.
+
+(** ** the variadic Merge is the left fold of pairwise merges *)
+Definition pmerge (a b : pschema) : pschema :=
+  {| p_fields := p_fields a ++ p_fields b; p_tests := p_tests a ++ p_tests b; p_pts := p_pts a ++ p_pts b |}.
+Definition pmerge_all (parts : list pschema) : pschema :=
+  {| p_fields := flat_map p_fields parts; p_tests := flat_map p_tests parts; p_pts := flat_map p_pts parts |}.
+
+Lemma pmerge_fold : forall rest a, fold_left pmerge rest a = pmerge a (pmerge_all rest).
+Proof.
+  induction rest as [|b r IH]; intros a.
+  - cbn. unfold pmerge, pmerge_all. cbn. rewrite !app_nil_r. now destruct a.
+  - cbn [fold_left]. rewrite IH. unfold pmerge, pmerge_all. cbn. now rewrite !app_assoc.
+Qed.
+
+Theorem merge_many_is_fold l i js :
+  pstep l (OMergeN i js) = l ++ [fold_left pmerge (map (pget l) js) (pget l i)]
+  /\ pstep l (OMerge i (hd 0 js)) = l ++ [pmerge (pget l i) (pget l (hd 0 js))].
+Proof.
+  split; [|reflexivity]. cbn [pstep]. rewrite pmerge_fold. unfold pmerge, pmerge_all. cbn [map flat_map]. reflexivity.
+Qed.
